@@ -202,9 +202,14 @@ func genCase(t *rapid.T) Case {
 		c.ByName = true
 		c.NoDNSCache = rapid.IntRange(0, 3).Draw(t, "dnsCacheOff") == 0
 	}
-	// large bodies (added after seeded defect C09/m16): in one file in three of the formats that carry bodies, one entry
-	// (two in one case of four) gets a body around or above 64 KiB
-	if el := growable(c.File); len(el) > 0 && rapid.IntRange(0, 2).Draw(t, "growBody") == 0 {
+	// large bodies (added after seeded defect C09/m16): in one file in three of the formats that carry bodies - one raw
+	// file in two: its requests are parsed from request text and are the only ones that cannot produce their body a
+	// second time (no http.Request.GetBody) -, one entry (two in one case of four) gets a body around or above 64 KiB
+	growOdds := 2
+	if format == "raw" {
+		growOdds = 1
+	}
+	if el := growable(c.File); len(el) > 0 && rapid.IntRange(0, growOdds).Draw(t, "growBody") == 0 {
 		n := 1
 		if len(el) > 1 && rapid.IntRange(0, 3).Draw(t, "growTwo") == 0 {
 			n = 2
@@ -576,6 +581,49 @@ func check(c Case, o *vf.Obs) error {
 	o.ClassIf(tailBody && c.Passes > 1, "raw_sized_block_extends_past_body_two_passes")
 	o.ClassIf(tailBig, "raw_sized_block_extends_past_body_gt_4k")
 	o.Class("answer_" + c.Answer)
+	// body sizes x observers of the run (added after seeded defect C09/m16)
+	maxBody, anyBody := 0, false
+	for _, w := range want {
+		maxBody = max(maxBody, len(w.Body))
+		anyBody = anyBody || len(w.Body) > 0
+	}
+	around64k := false
+	for _, w := range want {
+		around64k = around64k || (len(w.Body) >= 65535 && len(w.Body) <= 65537)
+	}
+	gunKind := fmt.Sprint(gun["type"])
+	gt64k := maxBody > 65536
+	answlog := c.AnswLog != ""
+	observed := answlog || c.TraceDump || c.Trace || c.LogLevel != ""
+	if gt64k {
+		o.Class("body_gt_64k", "body_gt_64k_"+c.File.Format, "body_gt_64k_"+gunKind+"_gun")
+	}
+	o.ClassIf(around64k, "body_64k_plus_minus_1")
+	o.ClassIf(maxBody >= 100000, "body_ge_100k")
+	o.ClassIf(len(c.Grow) > 0 && c.Passes > 1, "body_around_or_gt_64k_two_passes")
+	if answlog {
+		o.Class("answlog_enabled", "answlog_filter_"+c.AnswLog, "answlog_"+c.File.Format, "answlog_"+gunKind+"_gun")
+	}
+	o.ClassIf(answlog && anyBody, "answlog_entry_with_body")
+	o.ClassIf(c.TraceDump, "httptrace_dump")
+	o.ClassIf(c.Trace, "httptrace_trace")
+	o.ClassIf(c.TraceDump && anyBody, "httptrace_dump_entry_with_body")
+	o.ClassIf(c.LogLevel != "", "log_level_"+c.LogLevel)
+	o.ClassIf(c.LogLevel == "debug" && anyBody, "log_level_debug_entry_with_body")
+	o.ClassIf(!observed, "no_observer")
+	if gt64k && answlog {
+		o.Class("body_gt_64k_answlog", "body_gt_64k_answlog_"+c.File.Format, "body_gt_64k_answlog_"+gunKind+"_gun")
+	}
+	o.ClassIf(gt64k && answlog && (c.AnswLog == "default" || c.AnswLog == "error"), "body_gt_64k_answlog_nothing_logged")
+	o.ClassIf(gt64k && c.AnswLog == "all", "body_gt_64k_answlog_all")
+	o.ClassIf(gt64k && c.TraceDump, "body_gt_64k_httptrace_dump")
+	o.ClassIf(gt64k && c.Trace, "body_gt_64k_httptrace_trace")
+	o.ClassIf(gt64k && c.LogLevel == "debug", "body_gt_64k_debug_log")
+	o.ClassIf(gt64k && !observed, "body_gt_64k_no_observer")
+	o.ClassIf(gt64k && c.NoKeep, "body_gt_64k_keep_alive_off")
+	if gt64k && observed {
+		o.NonTrivial()
+	}
 	o.ClassIf(c.Connect, "connect_gun")
 	o.ClassIf(c.HTTP2, "http2_gun")
 	o.ClassIf(c.HTTP2 && c.NoKeep && len(recs) >= 2, "http2_keep_alive_off_ge_2_requests")
